@@ -479,6 +479,61 @@ PROPS.update({
     },
 })
 
+TSAN_ENV = {"TSAN_OPTIONS": "halt_on_error=0:second_deadlock_stack=1:report_signal_unsafe=0"}
+
+PROPS.update({
+    "C17": {
+        "level": "exploration",
+        "design_ref": "DESIGN.md section 5, C17",
+        "rule": "a seeded 'world' = 7 automaton searchers (top-level auto/contiguous/DFA/noncontiguous and low-level "
+                "contiguous/DFA/noncontiguous; all three match kinds; packed, rare-byte/start-byte prefilters; "
+                "case-insensitive) + 4 packed searchers used directly (slim-128, slim-256, fat-256, Rabin-Karp) and a "
+                "pool of 24 inputs (0-300 bytes and 2-20 KB). 8 threads run pre-planned random sequences over 11 "
+                "operations (find, earliest, find_iter, is_match, overlapping iterator/stepping, anchored find, span "
+                "find, replace_all_bytes, stream_find_iter, stream_replace_all) on shared references; odd threads use "
+                "clones made beforehand and drop them inside the thread. Every operation is logged at the client "
+                "boundary with call/return tickets from one global atomic counter and a hash of everything returned. "
+                "Offline checker: each concurrent result equals the result computed sequentially before the threads "
+                "started and again after they finished; Debug renderings (all states/transitions/match lists) are "
+                "unchanged; 'overlapping_operation_pairs' counts pairs from different threads whose ticket intervals "
+                "overlapped. Observers: native ('threads'), write-protected searcher heap ('purity': world built from "
+                "an mmap arena that is mprotect'ed read-only during the whole workload; any store into searcher memory "
+                "is a SIGSEGV reported with the announced call), ThreadSanitizer build ('tsan', -Zbuild-std), and the "
+                "Miri interpreter with a different scheduler seed per shard ('miri', 3 threads, data-race detector on "
+                "safe and unsafe code). evaluations = sequential reference calls + concurrent operations checked. "
+                "Distinct non-trivial = distinct (world seed, searcher, op, input) executed concurrently.",
+        "assumptions": COMMON_ASSUMPTIONS[1:] + [
+            "only the interleavings that occurred (plus Miri's seeded schedules) are covered",
+            "a benign global that never changes results and never races is not a violation and is not reported",
+            "the purity observer sees writes into memory allocated while the searchers were built, not writes to statics"],
+        "stages": {
+            "quick": [
+                {"kind": "native", "name": "threads", "stage": "threads", "shards": 2},
+                {"kind": "native", "name": "purity", "bin": "purity", "stage": "purity", "shards": 4,
+                 "crash_is_violation": True},
+                {"kind": "tsan", "name": "tsan", "stage": "tsan", "shards": 2, "env": TSAN_ENV,
+                 "crash_is_violation": True},
+                {"kind": "miri", "name": "miri", "stage": "miri", "tier": "tiny", "shards": 12,
+                 "miri_seed_per_shard": True},
+            ],
+            "thorough": [
+                {"kind": "native", "name": "threads", "stage": "threads", "shards": 2},
+                {"kind": "native", "name": "purity", "bin": "purity", "stage": "purity", "shards": 4,
+                 "crash_is_violation": True},
+                {"kind": "tsan", "name": "tsan", "stage": "tsan", "shards": 2, "env": TSAN_ENV,
+                 "crash_is_violation": True},
+                {"kind": "miri", "name": "miri", "stage": "miri", "tier": "tiny", "shards": 96,
+                 "miri_seed_per_shard": True},
+            ],
+        },
+        "floors": {"quick": {"evaluations": 200_000, "overlapping_operation_pairs": 100_000, "protected_windows": 8,
+                             "rounds_threads": 8, "rounds_tsan": 2, "rounds_miri": 8,
+                             "concurrent_stream_find_iter": 10_000, "concurrent_overlapping_step": 10_000},
+                   "thorough": {"evaluations": 5_000_000, "rounds_miri": 60}},
+        "timeout": {"quick": 1500, "thorough": 8 * 3600},
+    },
+})
+
 _DIFF_NOTE = ("Trusted base: the differential/metamorphic relation itself, the generators, rustc/std. Exploration "
               "only: holds on the executions observed (counts in the evidence file).")
 
@@ -591,5 +646,19 @@ MANIFEST_TEXT.update({
         "level_note": "A clean run is not a proof of memory safety: only reached code, only the observed inputs; guard "
                       "pages/red zones miss non-adjacent stray reads (Miri covers those on its smaller workload).",
         "technique": "sanitizers: guard pages (mmap/mprotect) + Miri + ASan, with crash-time case reporting",
+    },
+})
+
+MANIFEST_TEXT.update({
+    "C17": {
+        "level_text": "History checker + four observers: concurrent operations on shared searchers (and clones) are "
+                      "logged with call/return tickets and result hashes and checked offline against the sequential "
+                      "results taken before and after (purity across history and across threads); the searchers' heap is "
+                      "write-protected during the workload so that any hidden mutation faults; ThreadSanitizer and "
+                      "Miri's data-race detector watch the same workload. The evidence reports how many operation pairs "
+                      "really overlapped in time.",
+        "level_note": "Only the schedules that occurred and Miri's seeded ones; sanitizers only see reached code. "
+                      "Trusted base: ticket counter (SeqCst atomic), FNV result hashing, mprotect.",
+        "technique": "runtime monitoring: concurrent history log + offline checker; mprotect'ed heap; TSan; Miri race detector",
     },
 })
